@@ -132,6 +132,7 @@ pub fn run_framed(a: &Args) {
     let boundary: Vec<usize> = vec![0, 1, 2, 126, 127, 128, 129, 255, 256, 16383, 16384, 16385, 65534, 65535, 65536, 65537];
 
     // (a) message-io -> message-io, both directions, bursts that share socket reads, then idleness
+    mark_scenario(&out, "net_framed (a) message-io -> message-io, both directions, bursts that share socket reads, then idleness");
     for dir in 0..2 {
         let mut lists: Vec<Vec<usize>> = vec![boundary.clone(), vec![0; 40], vec![128; 30], (0..200).map(|i| i % 300).collect(), vec![1 << 21, 5, 1 << 20, 0, 127, 128]];
         for _ in 0..(if a.thorough { 40 } else { 4 }) {
@@ -163,6 +164,7 @@ pub fn run_framed(a: &Args) {
     }
 
     // (b) raw writer with adversarial write boundaries -> FramedTcp listener
+    mark_scenario(&out, "net_framed (b) raw writer with adversarial write boundaries -> FramedTcp listener");
     {
         let na = Net::new();
         let (lid, addr) = na.ctl.listen(t, "127.0.0.1:0").unwrap();
@@ -208,6 +210,7 @@ pub fn run_framed(a: &Args) {
     }
 
     // (c) FramedTcp sender -> raw reader: the bytes on the wire are exactly the canonical frames
+    mark_scenario(&out, "net_framed (c) FramedTcp sender -> raw reader: the bytes on the wire are exactly the canonical frames");
     {
         let listener = TcpListener::bind("127.0.0.1:0").unwrap();
         let addr = listener.local_addr().unwrap();
@@ -243,6 +246,7 @@ pub fn run_framed(a: &Args) {
         if nb.shutdown() { out.violation("[C17,C01] event processing panicked"); }
     }
     // (d) back-pressure: tens of thousands of small frames against a reader that starts late and
+    mark_scenario(&out, "net_framed (d) back-pressure: tens of thousands of small frames against a reader that starts late and");
     //     reads slowly, so that write() accepts only part of a frame now and then
     {
         let listener = TcpListener::bind("127.0.0.1:0").unwrap();
@@ -280,6 +284,7 @@ pub fn run_framed(a: &Args) {
         out.case(&format!("framed backpressure n={}", n), &format!("{}", got == expected));
         if nb.shutdown() { out.violation("[C17,C01] event processing panicked"); }
     }
+    server_speaks_first(t, &mut out);
     out.finish();
 }
 
@@ -370,7 +375,71 @@ pub fn run_tcp(a: &Args) {
         out.case("tcp rawwriter 300000", &format!("{}", chunks.concat() == data));
         if na.shutdown() { out.violation("[C17,C11] event processing panicked"); }
     }
+    // a reader that stalls for seconds in the middle of a large buffer, then goes on: the stream
+    // is exactly the concatenation of the buffers whose send() answered Sent
+    {
+        mark_scenario(&out, "net_tcp: a raw reader that reads nothing for 2.6 s while a 6 MiB buffer is being sent, then reads everything; two more buffers follow");
+        let listener = TcpListener::bind("127.0.0.1:0").unwrap();
+        let addr = listener.local_addr().unwrap();
+        let nb = Net::new();
+        let (ep, _) = nb.ctl.connect(t, addr).unwrap();
+        let (mut peer, _) = listener.accept().unwrap();
+        nb.wait(3000, |ev| ev.iter().any(|e| matches!(e, Ev::Connected(e2, true) if *e2 == ep)));
+        let bufs: Vec<Vec<u8>> = vec![payload(11, 6 << 20), payload(12, 1000), payload(13, 70_000)];
+        let reader = std::thread::spawn(move || {
+            std::thread::sleep(Duration::from_millis(2600));
+            let mut got = vec![];
+            let mut buf = vec![0u8; 1 << 16];
+            peer.set_read_timeout(Some(Duration::from_millis(1500))).unwrap();
+            loop { match peer.read(&mut buf) { Ok(0) => break, Ok(n) => got.extend_from_slice(&buf[..n]), Err(_) => break } }
+            got
+        });
+        let st = send_all(&nb.ctl, ep, &bufs);
+        let got = reader.join().unwrap();
+        let sent: Vec<u8> = bufs.iter().zip(st.iter()).filter(|(_, s)| **s == SendStatus::Sent).flat_map(|(b, _)| b.clone()).collect();
+        if got != sent {
+            let pos = got.iter().zip(sent.iter()).position(|(x, y)| x != y).unwrap_or(got.len().min(sent.len()));
+            out.violation(&format!("[C11] Tcp, reader stalled 2.6 s inside a 6 MiB buffer: send() answered {:?}; the peer received {} bytes, the buffers reported Sent are {} bytes, first difference at offset {} (the byte stream must be exactly the concatenation of the buffers reported Sent)", st, got.len(), sent.len(), pos));
+        }
+        out.count("tcp_stalled_reader");
+        out.case("tcp stalledreader 6MiB,1000,70000", &format!("{}", got == sent));
+        if nb.shutdown() { out.violation("[C17,C11] event processing panicked"); }
+    }
+    server_speaks_first(t, &mut out);
     out.finish();
+}
+
+/// the peer sends its greeting right after accepting and then stays silent, and the connecting
+/// node is late to look at its poll (the "connect finished" and the "readable" notifications arrive
+/// merged): Connected must be followed by the greeting without any further traffic
+pub fn server_speaks_first(t: Transport, out: &mut Out) {
+    for late_ms in [0u64, 40, 120] {
+        mark_scenario(out, &format!("{:?}: the peer greets right after accept and goes silent; the connecting node first polls {} ms later", t, late_ms));
+        let l = TcpListener::bind("127.0.0.1:0").unwrap();
+        let (ctl, mut processor) = network::split();
+        let (ep, _) = ctl.connect(t, l.local_addr().unwrap()).unwrap();
+        let (mut peer, _) = l.accept().unwrap();
+        let greeting = payload(late_ms + 1, 100);
+        let mut wire = vec![]; if t == Transport::FramedTcp { wire.extend(leb128(greeting.len() as u64)); } wire.extend(&greeting);
+        peer.write_all(&wire).unwrap();
+        std::thread::sleep(Duration::from_millis(late_ms));
+        let mut connected = false;
+        let mut data: Vec<u8> = vec![];
+        let end = Instant::now() + Duration::from_millis(1500);
+        while Instant::now() < end && data.len() < greeting.len() {
+            processor.process_poll_event(Some(Duration::from_millis(20)), |e| match e {
+                NetEvent::Connected(e2, true) if e2 == ep => connected = true,
+                NetEvent::Message(e2, d) if e2 == ep => data.extend_from_slice(d),
+                _ => {}
+            });
+        }
+        if !connected || data != greeting {
+            out.violation(&format!("[C03,C11,C01] {:?}: the peer sent {} bytes right after accepting and went silent; the connecting node polled {} ms later: Connected(true)={}, {} bytes of the greeting delivered within 1.5 s", t, greeting.len(), late_ms, connected, data.len()));
+        }
+        out.count("server_speaks_first");
+        out.case(&format!("speaksfirst {:?} late {}", t, late_ms), &format!("{} {}", connected, data == greeting));
+        drop(peer);
+    }
 }
 
 // ---------------------------------------------------------------------------------------------------
@@ -454,6 +523,74 @@ pub fn run_udp(a: &Args) {
         out.case("udp connected", &format!("{}", g == ms));
         if na.shutdown() | nb.shutdown() { out.violation("[C17,C12] event processing panicked"); }
     }
+    // a backlog: datagrams pile up in the socket while the node does not look at its poll (a slow
+    // callback, a descheduled thread), then the link goes idle: every one of them is delivered
+    for connected in [false, true] {
+        mark_scenario(&out, &format!("net_udp: 250 paced 8-byte datagrams arrive while the node is not polling, then silence (receiver is a {})", if connected { "connected socket" } else { "listener" }));
+        let (ctl, mut processor) = network::split();
+        let peer = UdpSocket::bind("127.0.0.1:0").unwrap();
+        let target: SocketAddr = if connected {
+            let (ep, local) = ctl.connect(t, peer.local_addr().unwrap()).unwrap();
+            let mut ok = false;
+            for _ in 0..50 { processor.process_poll_event(Some(Duration::from_millis(10)), |e| if let NetEvent::Connected(e2, true) = e { if e2 == ep { ok = true; } }); if ok { break; } }
+            local
+        } else { ctl.listen(t, "127.0.0.1:0").unwrap().1 };
+        let n = 250u64;
+        for i in 0..n { peer.send_to(&i.to_le_bytes(), target).unwrap(); if i % 16 == 15 { std::thread::sleep(Duration::from_micros(200)); } }
+        std::thread::sleep(Duration::from_millis(30));
+        let mut got: Vec<u64> = vec![];
+        let end = Instant::now() + Duration::from_millis(1200);
+        while Instant::now() < end && (got.len() as u64) < n {
+            processor.process_poll_event(Some(Duration::from_millis(50)), |e| if let NetEvent::Message(_, d) = e { if d.len() == 8 { got.push(u64::from_le_bytes(d.try_into().unwrap())); } });
+        }
+        let expected: Vec<u64> = (0..n).collect();
+        if got != expected {
+            out.violation(&format!("[C12] {} datagrams were queued in a Udp {} while the node was not polling, then the link went idle: {} delivered within 1.2 s (in order: {}) - on an idle loopback every datagram is delivered", n, if connected { "connected socket" } else { "listener" }, got.len(), got.windows(2).all(|w| w[0] < w[1])));
+        }
+        out.count("udp_backlog_then_idle");
+        out.case(&format!("udp backlog connected={}", connected), &format!("{}", got.len()));
+    }
+    // IPv6 link-local peers (fe80::/10 carry a scope id that is part of the sender's address)
+    {
+        use std::net::{Ipv6Addr, SocketAddrV6};
+        let ll: Option<(Ipv6Addr, u32)> = std::fs::read_to_string("/proc/net/if_inet6").ok().and_then(|txt| txt.lines().find_map(|l| {
+            let f: Vec<&str> = l.split_whitespace().collect();
+            if f.len() >= 6 && f[0].starts_with("fe80") && f[5] != "lo" { let v = u128::from_str_radix(f[0], 16).ok()?; Some((Ipv6Addr::from(v), u32::from_str_radix(f[1], 16).ok()?)) } else { None }
+        }));
+        // the pure part: an endpoint built for an address IS for that address
+        let scoped = SocketAddr::V6(SocketAddrV6::new("fe80::1234".parse().unwrap(), 4000, 0, 7));
+        let fl = ResourceId::verif_new(Transport::Udp.id(), message_io::network::ResourceType::Local, 3);
+        if Endpoint::from_listener(fl, scoped).addr() != scoped { out.violation(&format!("[C12] Endpoint::from_listener(id, {}) addresses {} (the interface scope of a link-local address is part of the address)", scoped, Endpoint::from_listener(fl, scoped).addr())); }
+        out.count("udp_from_listener_scoped_address");
+        if let Some((ip, scope)) = ll {
+            mark_scenario(&out, &format!("net_udp: a link-local IPv6 sender {}%{} to a listener on [::]", ip, scope));
+            let na = Net::new();
+            if let Ok((lid6, laddr)) = na.ctl.listen(t, "[::]:0") {
+                if let Ok(s) = UdpSocket::bind(SocketAddr::V6(SocketAddrV6::new(ip, 0, 0, scope))) {
+                    s.set_read_timeout(Some(Duration::from_millis(1500))).unwrap();
+                    let me = s.local_addr().unwrap();
+                    let dest = SocketAddr::V6(SocketAddrV6::new(ip, laddr.port(), 0, scope));
+                    if s.send_to(b"from a link-local sender", dest).is_ok() {
+                        let ok = na.wait(2000, |ev| ev.iter().any(|e| matches!(e, Ev::Message(..))));
+                        let rep = na.snapshot().into_iter().find_map(|e| match e { Ev::Message(ep, _) => Some(ep), _ => None });
+                        match rep {
+                            Some(ep) if ok => {
+                                if ep.addr() != me || ep.resource_id() != lid6 { out.violation(&format!("[C12] a datagram from {} was reported with the sender address {} (listener {} / {})", me, ep.addr(), ep.resource_id(), lid6)); }
+                                let st = na.ctl.send(ep, b"reply");
+                                let mut buf = [0u8; 64];
+                                let back = s.recv_from(&mut buf).ok().map(|(n, _)| buf[..n].to_vec());
+                                if st != SendStatus::Sent || back.as_deref() != Some(&b"reply"[..]) { out.violation(&format!("[C12] the reply through the endpoint reported for the link-local sender {} did not reach it: send {:?}, received {:?}", me, st, back.map(|b| b.len()))); }
+                            }
+                            _ => out.violation(&format!("[C12] a datagram from the link-local sender {} to a listener on [::] was not delivered", me)),
+                        }
+                        out.count("udp_ipv6_link_local_sender");
+                        out.case("udp linklocal", "ok");
+                    }
+                }
+            }
+            if na.shutdown() { out.violation("[C17,C12] event processing panicked"); }
+        } else { out.count("udp_ipv6_link_local_not_available"); }
+    }
     out.finish();
 }
 
@@ -469,6 +606,7 @@ pub fn run_ws(a: &Args) {
     let mut r = Rng::new(a.seed);
     let t = Transport::Ws;
     // (a) message-io <-> message-io: bursts, both directions, then idleness
+    mark_scenario(&out, "net_ws (a) message-io <-> message-io: bursts, both directions, then idleness");
     for dir in 0..2 {
         let mut lists: Vec<Vec<usize>> = vec![vec![0, 1, 125, 126, 127, 128, 65535, 65536, 65537, 131072, 131073], vec![10; 50], vec![0; 20], vec![3, 3, 3], vec![1 << 21, 1, 1 << 20]];
         for _ in 0..(if a.thorough { 30 } else { 3 }) {
@@ -494,6 +632,7 @@ pub fn run_ws(a: &Args) {
         }
     }
     // (b) stock tungstenite client -> Ws listener: several messages in ONE tcp write, fragmented messages; and back
+    mark_scenario(&out, "net_ws (b) stock tungstenite client -> Ws listener: several messages in ONE tcp write, fragmented messages; and back");
     {
         let na = Net::new();
         let (lid, addr) = na.ctl.listen(t, "127.0.0.1:0").unwrap();
@@ -578,6 +717,7 @@ pub fn run_ws(a: &Args) {
         if na.shutdown() | echo.shutdown() { out.violation("[C17,C01] event processing panicked"); }
     }
     // (c) Ws connector -> stock tungstenite server
+    mark_scenario(&out, "net_ws (c) Ws connector -> stock tungstenite server");
     {
         let listener = TcpListener::bind("127.0.0.1:0").unwrap();
         let addr = listener.local_addr().unwrap();
@@ -755,8 +895,8 @@ pub fn run_limits(a: &Args) {
     {
         let Some((na, nb, _lid, ep_a, ep_b)) = connect_pair(Transport::Ws) else { out.violation("[C13,C03] no Ws connection"); out.finish(); return };
         let max = Transport::Ws.max_message_size();
-        let mut sizes: Vec<(usize, SendStatus)> = vec![(max + 1, SendStatus::MaxPacketSizeExceeded), (1000, SendStatus::Sent)];
-        if a.thorough { sizes = vec![((16 << 20) - 100, SendStatus::Sent), ((16 << 20) + 1, SendStatus::Sent), (max, SendStatus::Sent), (max + 1, SendStatus::MaxPacketSizeExceeded), (1000, SendStatus::Sent)]; }
+        let mut sizes: Vec<(usize, SendStatus)> = vec![(max, SendStatus::Sent), (max + 1, SendStatus::MaxPacketSizeExceeded), (1000, SendStatus::Sent)];
+        if a.thorough { sizes = vec![((16 << 20) - 100, SendStatus::Sent), ((16 << 20) + 1, SendStatus::Sent), (max - 14, SendStatus::Sent), (max - 1, SendStatus::Sent), (max, SendStatus::Sent), (max + 1, SendStatus::MaxPacketSizeExceeded), (1000, SendStatus::Sent)]; }
         let mut expected: Vec<Vec<u8>> = vec![];
         for (len, want) in sizes {
             let p = payload(len as u64, len);
@@ -857,6 +997,7 @@ fn lifecycle_check(name: &str, events: &[Ev], connects: &[Endpoint], listeners: 
 
 pub fn run_life(a: &Args) {
     let mut out = Out::new(&a.out);
+    mark_scenario(&out, "net_life: start"); // (opens the marker file before the descriptor base line is taken)
     let fd0 = open_fds();
     let th0 = threads();
     let reps = if a.thorough { 12 } else { 2 };
@@ -867,12 +1008,14 @@ pub fn run_life(a: &Args) {
             let mut connects: Vec<Endpoint> = vec![];
             let fd_base = open_fds();
             // 1. failed connect: nobody listens there
+            mark_scenario(&out, &format!("net_life {:?}: connect to a closed port", t));
             let dead_addr = { let l = TcpListener::bind("127.0.0.1:0").unwrap(); l.local_addr().unwrap() };
             let (ep_fail, _) = node.ctl.connect(t, dead_addr).unwrap();
             connects.push(ep_fail);
             if !node.wait(5000, |ev| ev.iter().any(|e| matches!(e, Ev::Connected(ep, false) if *ep == ep_fail))) { out.violation(&format!("[C03] {:?}: connect to a closed port never produced Connected(_, false)", t)); }
             if node.ctl.is_ready(ep_fail.resource_id()).is_some() { out.violation(&format!("[C03,C18] {:?}: a failed connection is still registered", t)); }
             // 2. the peer accepts and closes at once (FIN) / resets (RST)
+            mark_scenario(&out, &format!("net_life {:?}: raw peer accepts and closes / resets at once", t));
             for rst in [false, true] {
                 let l = TcpListener::bind("127.0.0.1:0").unwrap();
                 let la = l.local_addr().unwrap();
@@ -898,6 +1041,7 @@ pub fn run_life(a: &Args) {
                 out.count("life_peer_close");
             }
             // 3. a raw client of the listener: data then FIN in ONE write burst (data must come before Disconnected)
+            mark_scenario(&out, &format!("net_life {:?}: raw client writes one message and closes at once", t));
             if t != Transport::Ws {
                 let mut s = TcpStream::connect(addr).unwrap();
                 let me = s.local_addr().unwrap();
@@ -917,6 +1061,7 @@ pub fn run_life(a: &Args) {
                 out.count("life_data_then_fin");
             }
             // 4. local remove(): true once, no Disconnected for it, the peer sees the close
+            mark_scenario(&out, &format!("net_life {:?}: remove() of an established connection", t));
             {
                 let l = TcpListener::bind("127.0.0.1:0").unwrap();
                 let la = l.local_addr().unwrap();
@@ -940,6 +1085,7 @@ pub fn run_life(a: &Args) {
                 out.count("life_local_remove");
             }
             // 5. hostile / half-open peers of the listener, next to a healthy canary connection
+            mark_scenario(&out, &format!("net_life {:?}: garbage / half-open handshakes next to a healthy connection", t));
             {
                 let canary = Net::new();
                 let (cep, _) = canary.ctl.connect(t, addr).unwrap();
@@ -991,31 +1137,98 @@ pub fn run_life(a: &Args) {
             out.case(&format!("life {:?} rep {}", t, rep), &format!("fds {}", fd_now as i64 - fd_base as i64));
             if node.shutdown() { out.violation(&format!("[C17] {:?}: event processing panicked", t)); }
         }
+        // 6. socket options: a keepalive the OS accepts (60 s) and one it rejects (12 h: Linux takes
+        //    TCP_KEEPIDLE only up to 32767 s; documented as "just a warning").  Either way the
+        //    connection must be announced, carry data both ways and end with Disconnected.
+        for t in [Transport::Tcp, Transport::FramedTcp] {
+            use message_io::network::{TransportConnect, TransportListen};
+            use message_io::adapters::tcp::{TcpConnectConfig, TcpListenConfig};
+            use message_io::adapters::framed_tcp::{FramedTcpConnectConfig, FramedTcpListenConfig};
+            for secs in [60u64, 12 * 3600] {
+                let ka = socket2::TcpKeepalive::new().with_time(Duration::from_secs(secs));
+                mark_scenario(&out, &format!("net_life {:?}: connect_with / listen_with a TCP keepalive of {} s (12 h is rejected by the OS: documented as a warning only), one message each way, then the peer closes", t, secs));
+                let fd_base = open_fds();
+                // connect side, against a raw peer
+                {
+                    let node = Net::new();
+                    let l = TcpListener::bind("127.0.0.1:0").unwrap();
+                    let cfg = if t == Transport::Tcp { TransportConnect::Tcp(TcpConnectConfig::default().with_keepalive(ka.clone())) } else { TransportConnect::FramedTcp(FramedTcpConnectConfig::default().with_keepalive(ka.clone())) };
+                    let (ep, _) = node.ctl.connect_with(cfg, l.local_addr().unwrap()).unwrap();
+                    let (mut peer, _) = l.accept().unwrap();
+                    let okc = node.wait(3000, |ev| ev.iter().any(|e| matches!(e, Ev::Connected(e2, true) if *e2 == ep)));
+                    let st = node.ctl.send(ep, b"ping");
+                    peer.set_read_timeout(Some(Duration::from_secs(3))).unwrap();
+                    let mut buf = [0u8; 16];
+                    let n = peer.read(&mut buf).unwrap_or(0);
+                    let mut reply = vec![]; if t == Transport::FramedTcp { reply.push(4u8); } reply.extend(b"pong");
+                    peer.write_all(&reply).unwrap();
+                    let okm = node.wait(3000, |ev| ev.iter().any(|e| matches!(e, Ev::Message(e2, d) if *e2 == ep && d == b"pong")));
+                    drop(peer);
+                    let okd = node.wait(3000, |ev| ev.iter().any(|e| matches!(e, Ev::Disconnected(e2) if *e2 == ep)));
+                    if !okc || st != SendStatus::Sent || n == 0 || !okm || !okd {
+                        out.violation(&format!("[C03,C18] {:?} connect_with(keepalive {} s): Connected(true) delivered={}, send answered {:?}, the peer received {} bytes, the peer's reply was delivered={}, Disconnected after the peer closed={} (a connection announced as established must be usable and must end with Disconnected)", t, secs, okc, st, n, okm, okd));
+                    }
+                    lifecycle_check(&format!("{:?} keepalive connect", t), &node.snapshot(), &[ep], &[], &mut out);
+                    if node.shutdown() { out.violation("[C17] event processing panicked"); }
+                }
+                // listen side, a raw client
+                {
+                    let node = Net::new();
+                    let cfg = if t == Transport::Tcp { TransportListen::Tcp(TcpListenConfig::default().with_keepalive(ka.clone())) } else { TransportListen::FramedTcp(FramedTcpListenConfig::default().with_keepalive(ka.clone())) };
+                    let (lid, addr) = node.ctl.listen_with(cfg, "127.0.0.1:0").unwrap();
+                    let mut c = TcpStream::connect(addr).unwrap();
+                    let me = c.local_addr().unwrap();
+                    let mut hello = vec![]; if t == Transport::FramedTcp { hello.push(5u8); } hello.extend(b"hello");
+                    c.write_all(&hello).unwrap();
+                    let okm = node.wait(3000, |ev| ev.iter().any(|e| matches!(e, Ev::Message(e2, d) if e2.addr() == me && d == b"hello")));
+                    let acc = node.snapshot().into_iter().find_map(|e| match e { Ev::Accepted(e2, l2) if l2 == lid && e2.addr() == me => Some(e2), _ => None });
+                    let st = acc.map(|e2| node.ctl.send(e2, b"back"));
+                    c.set_read_timeout(Some(Duration::from_secs(3))).unwrap();
+                    let mut buf = [0u8; 16];
+                    let n = c.read(&mut buf).unwrap_or(0);
+                    drop(c);
+                    let okd = node.wait(3000, |ev| ev.iter().any(|e| matches!(e, Ev::Disconnected(e2) if e2.addr() == me)));
+                    if acc.is_none() || !okm || st != Some(SendStatus::Sent) || n == 0 || !okd {
+                        out.violation(&format!("[C03,C18] {:?} listen_with(keepalive {} s): Accepted delivered={}, the client's message delivered={}, send to it answered {:?}, it received {} bytes, Disconnected after it closed={}", t, secs, acc.is_some(), okm, st, n, okd));
+                    }
+                    lifecycle_check(&format!("{:?} keepalive listen", t), &node.snapshot(), &[], &[lid], &mut out);
+                    node.ctl.remove(lid);
+                    if node.shutdown() { out.violation("[C17] event processing panicked"); }
+                }
+                std::thread::sleep(Duration::from_millis(30));
+                let fd_now = open_fds();
+                if fd_now != fd_base { out.violation(&format!("[C18] {:?} with keepalive {} s: {} descriptors open after both nodes were shut down, {} before (a descriptor was leaked or closed twice)", t, secs, fd_now, fd_base)); }
+                out.count("life_keepalive_options");
+                out.case(&format!("life keepalive {:?} {}s rep {}", t, secs, rep), "ok");
+            }
+        }
         // Udp: Connected(true) once, never Accepted / Disconnected, also when the peer is absent and comes back
         {
+            mark_scenario(&out, "net_life Udp: the peer of a connected socket disappears, one datagram is sent into the void, the peer comes back");
             let node = Net::new();
             let sock = UdpSocket::bind("127.0.0.1:0").unwrap();
             let paddr = sock.local_addr().unwrap();
-            let (ep, _) = node.ctl.connect(Transport::Udp, paddr).unwrap();
+            let (ep, local) = node.ctl.connect(Transport::Udp, paddr).unwrap();
             node.wait(2000, |ev| ev.iter().any(|e| matches!(e, Ev::Connected(e2, true) if *e2 == ep)));
-            drop(sock); // the peer goes away: the next datagram triggers an ICMP port unreachable
+            // the peer goes away; ONE datagram is sent into the void: the ICMP port-unreachable leaves
+            // ECONNREFUSED pending on the connected socket, and the next recv() reports it
+            drop(sock);
             node.ctl.send(ep, b"anyone?");
+            std::thread::sleep(Duration::from_millis(60));
+            // the peer comes back on the same port and talks to the node
+            let sock = UdpSocket::bind(paddr).unwrap();
+            sock.send_to(b"pong-1", local).unwrap();
             std::thread::sleep(Duration::from_millis(30));
-            node.ctl.send(ep, b"anyone??");
-            let sock = UdpSocket::bind(paddr).unwrap(); // and comes back on the same port
-            std::thread::sleep(Duration::from_millis(20));
-            let me = SocketAddr::new(paddr.ip(), 0);
-            let _ = me;
-            // it answers to the node's socket address: learn it from a datagram
-            node.ctl.send(ep, b"hello");
+            sock.send_to(b"pong-2", local).unwrap();
+            sock.send_to(b"pong-3", local).unwrap();
+            let ok = node.wait(2000, |_| node.messages_of(ep.resource_id()).len() >= 3);
+            if !ok { out.violation(&format!("[C03,C12] Udp: datagrams of a peer that was briefly absent are not delivered any more ({} of 3 arrived)", node.messages_of(ep.resource_id()).len())); }
+            // and the node can still talk to it
+            let st = node.ctl.send(ep, b"hello again");
             sock.set_read_timeout(Some(Duration::from_secs(2))).unwrap();
             let mut buf = [0u8; 100];
-            if let Ok((_, from)) = sock.recv_from(&mut buf) {
-                sock.send_to(b"pong-1", from).unwrap();
-                sock.send_to(b"pong-2", from).unwrap();
-                let ok = node.wait(2000, |_| node.messages_of(ep.resource_id()).len() >= 2);
-                if !ok { out.violation("[C03,C12] Udp: datagrams of a peer that was briefly absent are not delivered any more"); }
-            }
+            let back = sock.recv_from(&mut buf).map(|(n, _)| buf[..n].to_vec()).ok();
+            if st != SendStatus::Sent || back.as_deref() != Some(&b"hello again"[..]) { out.violation(&format!("[C03,C12] Udp: after the peer was briefly absent, send() answers {:?} and the peer received {:?}", st, back.map(|b| b.len()))); }
             let evs = node.snapshot();
             let nconn = evs.iter().filter(|e| matches!(e, Ev::Connected(..))).count();
             if nconn != 1 || evs.iter().any(|e| matches!(e, Ev::Accepted(..) | Ev::Disconnected(..))) {
@@ -1046,6 +1259,7 @@ pub fn run_sync(a: &Args) {
     let reps = if a.thorough { 40 } else { 6 };
     for t in [Transport::Tcp, Transport::FramedTcp, Transport::Ws] {
         // (a) a peer that accepts and stays: Ok, ready at once, usable at once, Connected(ep, true) delivered once
+        mark_scenario(&out, "net_sync (a) a peer that accepts and stays: Ok, ready at once, usable at once, Connected(ep, true) delivered once");
         for rep in 0..reps {
             let server = Net::new();
             let (_lid, addr) = server.ctl.listen(t, "127.0.0.1:0").unwrap();
@@ -1069,6 +1283,7 @@ pub fn run_sync(a: &Args) {
             if node.shutdown() | server.shutdown() { out.violation("[C17,C03] event processing panicked"); }
         }
         // (b) nobody listens: ConnectionRefused, exactly one Connected(_, false), nothing else
+        mark_scenario(&out, "net_sync (b) nobody listens: ConnectionRefused, exactly one Connected(_, false), nothing else");
         for rep in 0..reps.min(6) {
             let dead_addr = { let l = TcpListener::bind("127.0.0.1:0").unwrap(); l.local_addr().unwrap() };
             let node = Net::new();
@@ -1088,6 +1303,7 @@ pub fn run_sync(a: &Args) {
             if node.shutdown() { out.violation("[C17,C03] event processing panicked"); }
         }
         // (c) the peer completes the connection (for Ws: the handshake) slowly: connect_sync must
+        mark_scenario(&out, "net_sync (c) the peer completes the connection (for Ws: the handshake) slowly: connect_sync must");
         //     not return before the connection is usable
         for rep in 0..reps.min(4) {
             let l = TcpListener::bind("127.0.0.1:0").unwrap();
@@ -1128,6 +1344,7 @@ pub fn run_sync(a: &Args) {
             if node.shutdown() { out.violation("[C17,C03] event processing panicked"); }
         }
         // (d) K1: the peer establishes the connection and closes it at once.  Whatever connect_sync
+        mark_scenario(&out, "net_sync (d) K1: the peer establishes the connection and closes it at once.  Whatever connect_sync");
         //     answers must match what was delivered: Ok <=> Connected(_, true) was delivered.
         let mut k1_seen = false;
         for rep in 0..(if a.thorough { 60 } else { 25 }) {
